@@ -446,7 +446,7 @@ def _reg_shards(tier):
     k = range(len(ENGINES))
     if tier == "quick":
         return [{"n": 2, "engines": [i, j], "forget_always": True} for i in (0, 2, 3) for j in (0, 2, 3)]
-    return [{"n": 3, "engines": [i, j, l]} for i in k for j in k for l in k]
+    return [{"n": 3, "engines": [i, j, l], "forget_always": True} for i in (0, 2, 3) for j in (0, 2, 3) for l in k]
 
 
 OBLIGATIONS = [
@@ -474,13 +474,13 @@ OBLIGATIONS = [
                      "cvc5 is run on the same SMT-LIB text (20 s cap); a definite disagreement makes the query inconclusive"]),
     Obligation(
         name="registration", kind="crosshair", harness=registration_harness, shards=_reg_shards,
-        cpu_budget={"quick": 60.0, "thorough": 600.0},
+        cpu_budget={"quick": 90.0, "thorough": 900.0},
         encoded=["openpectus.aggregator.aggregator_message_handlers:AggregatorMessageHandlers.handle_RegisterEngineMsg",
                  "openpectus.aggregator.aggregator:Aggregator.create_engine_id",
                  "openpectus.aggregator.aggregator:Aggregator.has_registered_engine_id"],
         symbolic="per registration: secret string (<= 7 chars), engine_version string (<= len(__version__)+1 chars), ignore_version_error bit, connect / disconnect / forget event bits",
         bounds={"quick": "2 registrations by engines from a catalogue of 3 name pairs (two of them colliding on the unchanged tree); a disconnect always removes the engine data",
-                "thorough": "3 registrations, 4 name pairs, engine data may survive a disconnect"},
+                "thorough": "3 registrations (first two from 3 name pairs, third from 4); a disconnect always removes the engine data"},
         assumptions=["fake dispatcher: has_connected_engine_id answers from the harness' connection map, maintained like AggregatorDispatcher._engine_id_channel_map",
                      "from_engine.register_engine_data replaced by a recorder that stores the EngineData (no database, no publisher task)",
                      "create_analysis_input.cache_clear stubbed", "RegisterEngineMsg built with model_construct (symbolic secret / version)",
